@@ -89,6 +89,10 @@ type Result struct {
 	// whether a block with the wrong number of labels is still returned, or
 	// which of two duplicate attribute definitions is returned).
 	UnspecNames map[string]bool
+	// ErrUnspec: whether an error is reported *beyond the Errs erroneous items*
+	// is not defined (Errs > 0 still demands an error; with Errs == 0 an error
+	// may or may not be reported). Attributes and blocks are defined as usual.
+	ErrUnspec bool
 }
 
 func (r *Result) unspecName(n string) {
@@ -125,6 +129,50 @@ type nitem struct {
 // logical content is the written-out block list).
 type Native struct {
 	items []nitem
+	// ghosts: physical items that denote no logical item (see Ghost); nil for
+	// every body made by NewNative / NewNativeGrouped.
+	ghosts []Ghost
+}
+
+// Ghost is a physical item of a dynamic-block-expanded body that denotes no
+// logical item at all: a `dynamic "Type"` block whose for_each collection is
+// empty, written with Labels label expressions. The logical content of the body
+// is the content without it. It is an item of the requested type when a schema
+// names Type as a block type: that step consumes it (it is elided from the
+// remaining body) and it contributes zero blocks. What the specifications leave
+// open is marked instead of guessed: if the schema's label count differs from
+// Labels, the type's part of the result and the presence of an error are not
+// defined; if the ghost is still in the body when the body is processed
+// exhaustively or in the dynamic attributes mode, whether "no blocks of an
+// unexpected type" is an error is not defined (ErrUnspec).
+type Ghost struct {
+	Type   string
+	Labels int
+}
+
+// NewNativeGhosts is NewNativeGrouped plus physical items that denote nothing.
+func NewNativeGhosts(b absconf.Body, groups []int, ghosts []Ghost) *Native {
+	n := NewNativeGrouped(b, groups)
+	n.ghosts = append([]Ghost(nil), ghosts...)
+	return n
+}
+
+// ghostStep applies a schema to the ghosts: those of a requested block type are
+// consumed, the others are returned (they remain in the body).
+func (n *Native) ghostStep(r *Result, s Schema) []Ghost {
+	var rest []Ghost
+	for _, g := range n.ghosts {
+		bs, ok := s.block(g.Type)
+		if !ok {
+			rest = append(rest, g)
+			continue
+		}
+		if bs.Labels != g.Labels {
+			r.unspecName(g.Type)
+			r.ErrUnspec = true
+		}
+	}
+	return rest
 }
 
 func NewNative(b absconf.Body) *Native {
@@ -192,7 +240,8 @@ func (n *Native) partial(s Schema) (Result, []nitem) {
 
 func (n *Native) Partial(s Schema) (Result, Model) {
 	r, rest := n.partial(s)
-	return r, &Native{items: rest}
+	ghosts := n.ghostStep(&r, s)
+	return r, &Native{items: rest, ghosts: ghosts}
 }
 
 func (n *Native) Content(s Schema) Result {
@@ -203,6 +252,9 @@ func (n *Native) Content(s Schema) Result {
 		groups[ni.group] = true
 	}
 	r.Errs += len(groups)
+	if len(n.ghostStep(&r, s)) > 0 {
+		r.ErrUnspec = true
+	}
 	return r
 }
 
@@ -227,6 +279,9 @@ func (n *Native) JustAttributes() Result {
 	}
 	if blocks {
 		r.Errs++ // at least one error: blocks are unmatched by that schema
+	}
+	if len(n.ghosts) > 0 {
+		r.ErrUnspec = true
 	}
 	r.finish()
 	return r
@@ -449,6 +504,7 @@ func (m *Merged) combine(s Schema, each func(c Model, s Schema) Result) Result {
 		cr := each(c, opt)
 		r.Errs += cr.Errs
 		r.Unspec = r.Unspec || cr.Unspec
+		r.ErrUnspec = r.ErrUnspec || cr.ErrUnspec
 		for n := range cr.UnspecNames {
 			r.unspecName(n)
 		}
@@ -493,6 +549,7 @@ func (m *Merged) JustAttributes() Result {
 		cr := c.JustAttributes()
 		r.Errs += cr.Errs
 		r.Unspec = r.Unspec || cr.Unspec
+		r.ErrUnspec = r.ErrUnspec || cr.ErrUnspec
 		for n := range cr.UnspecNames {
 			r.unspecName(n)
 		}
